@@ -303,7 +303,36 @@ def enclosing_if(node):
     return None
 
 
+def init_symmetry(ctx, rule):
+    """Expr.__init__ applies the declared bra-ket (anti)symmetry whenever any name is declared"""
+    fn = ctx.model.fn("expr_container:Expr.__init__")
+    app = [c for c in calls_in(fn) if call_name(c) == "_apply_tensor_braket_sym"]
+    ctx.floor(rule, "symmetry application in Expr.__init__", len(app), 1)
+    for c in app:
+        iff = enclosing_if(c)
+        ok = iff is None
+        if iff is not None:
+            t = iff.test
+            parts = sorted(U(v) for v in t.values) if isinstance(t, ast.BoolOp) and isinstance(t.op, ast.Or) else [U(t)]
+            ok = parts == ["self._antisym_tensors", "self._sym_tensors"]
+        ctx.check(rule, c, ok, "declared symmetry applied if symmetric OR antisymmetric names are given",
+                  f"Expr.__init__ applies the declared tensor symmetry only under `{U(iff.test) if iff is not None else ''}`: "
+                  "assumptions that consist only of antisym_tensors (or only of sym_tensors) are stored but never applied",
+                  key="init apply")
+    st = {U(a.targets[0] if isinstance(a, ast.Assign) else a.target): U(a.value) for a in walk_fn(fn)
+          if isinstance(a, (ast.Assign, ast.AnnAssign)) and a.value is not None}
+    ctx.check(rule, fn, st.get("self._sym_tensors") == "set() if sym_tensors is None else set(sym_tensors)" and
+              st.get("self._antisym_tensors") == "set() if antisym_tensors is None else set(antisym_tensors)",
+              "declared names stored", "storage of the declared names changed", key="init store")
+    mr = [c for c in calls_in(fn) if call_name(c) == "make_real"]
+    ctx.check(rule, fn, len(mr) == 1 and ("real", True) in conditions(mr[0]), "real=True applies make_real", "make_real call changed",
+              key="init real")
+    tg = [c for c in calls_in(fn) if call_name(c) == "set_target_idx"]
+    ctx.check(rule, fn, len(tg) == 1 and U(tg[0].args[0]) == "target_idx", "targets stored", "target storage changed", key="init target")
+
+
 def r06f(ctx):
+    init_symmetry(ctx, "R06f")
     mr = ctx.model.fn("expr_container:Expr.make_real")
     first = common.strip_docstring(mr.body)[0]
     ctx.check("R06f", first, isinstance(first, ast.If) and U(first.test) in ("self._real", "self.real")
